@@ -1,4 +1,4 @@
-"""MiniPy (stage 1) as Python data: one term, two renderings.
+"""MiniPy as Python data: one term, two renderings.
 
 `to_python(prog)`  — the source text given to real mypy and to CPython;
 `to_lean(prog)`    — the token line understood by `lean/Driver/C01.lean` (the same term for the Lean model).
